@@ -134,6 +134,14 @@ pub fn dispatch(toks: &[&str]) -> String {
     }
 }
 
+/// the first line of a listing that is not accepted on its own (else the head of the listing)
+fn rejected_part(d: &str,language: tree_sitter::Language) -> String {
+    for l in d.lines() {
+        if l.trim().len()>0 && lang::verify_str(language.clone(),&format!("{}\n",l)).is_err() { return l.chars().take(200).collect::<String>(); }
+    }
+    d.replace('\n',"|").chars().take(200).collect::<String>()
+}
+
 /// tokrt id lang addr hextext
 fn tokrt(toks: &[&str]) -> String {
     let r = tokrt_inner(toks);
@@ -182,7 +190,7 @@ fn tokrt_inner(toks: &[&str]) -> String {
             }
             if t1.len()!=i+2 || t1[i]!=0 || t1[i+1]!=0 { return "FAIL structure: end marker 00 00 missing or misplaced".to_string(); }
             let d = match t.detokenize(&t1) { Ok(s) => s, Err(e) => return format!("FAIL detokenize of own output failed: {}",e) };
-            if lang::verify_str(tree_sitter_applesoft::language(),&d).is_err() { return format!("FAIL the detokenized source is not accepted again: {}",d.replace('\n',"|").chars().take(200).collect::<String>()); }
+            if lang::verify_str(tree_sitter_applesoft::language(),&d).is_err() { return format!("FAIL the detokenized source is not accepted again: {}",rejected_part(&d,tree_sitter_applesoft::language())); }
             let mut t2z = lang::applesoft::tokenizer::Tokenizer::new();
             let t2 = match t2z.tokenize(&d,addr) {
                 Ok(v) => v,
@@ -237,7 +245,7 @@ fn tokrt_inner(toks: &[&str]) -> String {
                 i += l;
             }
             let d = match t.detokenize(&t1) { Ok(s) => s, Err(e) => return format!("FAIL detokenize of own output failed: {}",e) };
-            if lang::verify_str(tree_sitter_integerbasic::language(),&d).is_err() { return format!("FAIL the detokenized source is not accepted again: {}",d.replace('\n',"|").chars().take(200).collect::<String>()); }
+            if lang::verify_str(tree_sitter_integerbasic::language(),&d).is_err() { return format!("FAIL the detokenized source is not accepted again: {}",rejected_part(&d,tree_sitter_integerbasic::language())); }
             let mut t2z = lang::integer::tokenizer::Tokenizer::new();
             let t2 = match t2z.tokenize(d.clone()) { Ok(v) => v, Err(e) => return format!("FAIL re-tokenizing the detokenized source failed: {}",e) };
             if t1!=t2 { return format!("FAIL round trip: program tokenizes differently after detokenize ({} vs {} bytes): {}",t1.len(),t2.len(),d.replace('\n',"|").chars().take(160).collect::<String>()); }
@@ -248,7 +256,7 @@ fn tokrt_inner(toks: &[&str]) -> String {
             let mut t = lang::merlin::tokenizer::Tokenizer::new();
             let t1 = match t.tokenize(src.clone()) { Ok(v) => v, Err(_) => return "ok rejected-by-tokenizer".to_string() };
             let d = match t.detokenize(&t1) { Ok(s) => s, Err(e) => return format!("FAIL detokenize of own output failed: {}",e) };
-            if lang::verify_str(tree_sitter_merlin6502::language(),&d).is_err() { return format!("FAIL the detokenized source is not accepted again: {}",d.replace('\n',"|").chars().take(200).collect::<String>()); }
+            if lang::verify_str(tree_sitter_merlin6502::language(),&d).is_err() { return format!("FAIL the detokenized source is not accepted again: {}",rejected_part(&d,tree_sitter_merlin6502::language())); }
             let mut t2z = lang::merlin::tokenizer::Tokenizer::new();
             let t2 = match t2z.tokenize(d.clone()) { Ok(v) => v, Err(e) => return format!("FAIL re-tokenizing the detokenized source failed: {}",e) };
             if t1!=t2 { return format!("FAIL round trip: source tokenizes differently after detokenize ({} vs {} bytes)",t1.len(),t2.len()); }
